@@ -4,7 +4,7 @@ import itertools
 
 BEH9 = ["ok", "fail", "error", "skip", "xfail", "uxs", "multi", "kbd", "exit"]
 RAISE_KINDS = ["fail", "error", "skip", "xfail", "uxs", "kbd", "exit", "kbdsub", "exitsub", "basedirect",
-               "skipsub", "failsub", "mismatch", "xfail_err", "skip_empty", "skip2"]
+               "skipsub", "failsub", "mismatch", "xfail_err", "skip_empty", "skip2", "unhashable"]
 
 
 class Tok:
@@ -147,10 +147,15 @@ def random_program(rng, *, max_cleanups=4, kinds=RAISE_KINDS, p_raise=0.35, feat
         p["clone_id"] = "prog.clone"
     if "eq_exc" in feats and rng.random() < 0.12:
         # two stages raise exceptions that compare equal / the very same object
-        kind = rng.choice(["eqexc", "sameobj"])
+        kind = rng.choice(["eqexc", "sameobj", "skip-then-eqany"])
         t = tok("EQ")
-        p["test"].append(["raise", kind, t])
-        p["su_pre"].insert(0, ["cleanup", "ceq", [["raise", kind, t]]])
+        if kind == "skip-then-eqany":
+            # a skip, and later an error whose class compares by value and so is == that skip's exception
+            p["test"].append(["raise", "skip", t])
+            p["su_pre"].insert(0, ["cleanup", "ceq", [["raise", "eqany", t]]])
+        else:
+            p["test"].append(["raise", kind, t])
+            p["su_pre"].insert(0, ["cleanup", "ceq", [["raise", kind, t]]])
     if "own_exc" in feats:
         r = rng.random()
         if r < 0.12:
@@ -228,6 +233,12 @@ def detail_action(rng, tok, feats):
         return ["setcell", "cell<<P1>>", pid.encode().hex()]
     if r < 0.3:
         return ["detail", name, pid, [], "bin"]  # empty payload
+    if r < 0.36:
+        # a UTF-8 text detail read in chunks that split a multi-byte character (what attach_file /
+        # content_from_stream produce for a non-ASCII log longer than one chunk)
+        whole = ("caf\xe9 \u2603 " + pid).encode("utf8")
+        cut = whole.index(b"\xa9")            # between the two bytes of the e-acute
+        return ["detail", name, pid, [whole[:cut].hex(), whole[cut:cut + 3].hex(), whole[cut + 3:].hex()], "text"]
     chunks = []
     for _ in range(rng.randint(1, 3)):
         kind = rng.random()
